@@ -3,6 +3,7 @@ import LeanHelix.Props.C03
 import LeanHelix.Props.C04
 import LeanHelix.Props.C11NewView
 import LeanHelix.Props.C10Leader
+import LeanHelix.Lemmas.TermViews
 /-!
 # All log invariants of the term hold in every reachable state of the worker
 
@@ -27,6 +28,8 @@ structure AllInv (t : Term.Node) : Prop where
   votes : C11.VCsOK t
   bookkeeping : C10.LVInv t
   clean : Term.LogClean t
+  ownNL : Term.OwnPreparesNL t
+  views : Term.ViewsOK t
 
 theorem handle_evJ (tw : Term.W) (m : Message) : Evolves J tw.n (C08.handle tw m).n := by
   cases m with
@@ -45,6 +48,7 @@ theorem handle_lv (tw : Term.W) (m : Message) (h : C10.LVInv tw.n) : C10.LVInv (
   | newView x => exact (C10.handleNewView_stepW tw x h).2.1
 
 private theorem all_of_evolves {a b : Term.Node} (hev : Evolves J a b) (hevC : Evolves Clean a b)
+    (hevN : Evolves OwnNL a b) (hvw : ViewsOK b)
     (hlv : C10.LVInv b) (ha : AllInv a) : AllInv b :=
   ⟨by rw [hev.cfg]; exact ha.member,
    C03.commitsOK_evolves ha.member hev ha.commits,
@@ -52,13 +56,29 @@ private theorem all_of_evolves {a b : Term.Node} (hev : Evolves J a b) (hevC : E
    C04.stored_proposals_are_from_the_leader hev ha.proposals,
    C11.vcsOK_evolves hev ha.votes,
    hlv,
-   logClean_evolves hevC ha.clean⟩
+   logClean_evolves hevC ha.clean,
+   ownPreparesNL_evolves hevN ha.ownNL,
+   hvw⟩
 
 theorem allInv_termInv : C08.TermInv AllInv where
   reg := fun t r h =>
     ⟨h.member, ⟨h.commits.auth, h.commits.keys⟩, ⟨h.prepares.auth, h.prepares.keys⟩, h.proposals,
-     ⟨h.votes.auth, h.votes.keys⟩, h.bookkeeping, C08.logClean_reg t r h.clean⟩
-  handle := fun tw m h1 h2 _ h => by
+     ⟨h.votes.auth, h.votes.keys⟩, h.bookkeeping, C08.logClean_reg t r h.clean, h.ownNL, ⟨h.views.pp, h.views.prep⟩⟩
+  handle := fun tw m h1 h2 h3 h => by
+    have hevN : Evolves OwnNL tw.n (C08.handle tw m).n := by
+      cases m with
+      | preprepare x => exact handlePrePrepare_evN tw x h3
+      | prepare x => exact handlePrepare_evN tw x h3
+      | commit x => exact handleCommit_evN tw x
+      | viewChange x => exact handleViewChange_evN tw x
+      | newView x => exact handleNewView_evN tw x h3
+    have hvw : ViewsOK (C08.handle tw m).n := by
+      cases m with
+      | preprepare x => exact handlePrePrepare_views tw x h.views
+      | prepare x => exact handlePrepare_views tw x h.views
+      | commit x => exact handleCommit_views tw x h.views
+      | viewChange x => exact handleViewChange_views tw x h.views
+      | newView x => exact handleNewView_views tw x h.views
     have hevC : Evolves Clean tw.n (C08.handle tw m).n := by
       cases m with
       | preprepare x => exact handlePrePrepare_evC tw x ⟨h1, h2⟩
@@ -66,15 +86,16 @@ theorem allInv_termInv : C08.TermInv AllInv where
       | commit x => exact handleCommit_evC tw x ⟨h1, h2⟩
       | viewChange x => exact handleViewChange_evC tw x ⟨h1, h2⟩
       | newView x => exact handleNewView_evC tw x h2
-    exact all_of_evolves (handle_evJ tw m) hevC (handle_lv tw m h.bookkeeping) h
+    exact all_of_evolves (handle_evJ tw m) hevC hevN hvw (handle_lv tw m h.bookkeeping) h
   election := fun tw hh v h =>
-    all_of_evolves (election_ev tw hh v) (election_evC tw hh v) ((C10.election_stepW tw hh v h.bookkeeping).2.1) h
+    all_of_evolves (election_ev tw hh v) (election_evC tw hh v) (election_evN tw hh v) (election_views tw hh v h.views)
+      ((C10.election_stepW tw hh v h.bookkeeping).2.1) h
   start := fun cfg r spi c hmem _ => by
     have h0 : AllInv ({ ({ cfg := cfg } : Term.Node) with reg := r }) :=
       ⟨hmem, C03.commitsOK_init cfg |> fun x => ⟨x.auth, x.keys⟩, C11.preparesOK_init cfg |> fun x => ⟨x.auth, x.keys⟩,
        (by intro ppm hp; cases hp), C11.vcsOK_init cfg |> fun x => ⟨x.auth, x.keys⟩, Nat.le_refl 0,
-       C08.logClean_reg _ _ (logClean_init cfg)⟩
-    exact all_of_evolves (startTerm_ev _ c rfl) (startTerm_evC _ c)
+       C08.logClean_reg _ _ (logClean_init cfg), ownPreparesNL_init cfg, ⟨(viewsOK_init cfg).pp, (viewsOK_init cfg).prep⟩⟩
+    exact all_of_evolves (startTerm_ev _ c rfl) (startTerm_evC _ c) (startTerm_evN _ c) (startTerm_views _ c h0.views)
       ((C10.startTerm_stepW { n := { ({ cfg := cfg } : Term.Node) with reg := r }, spi := spi } c h0.bookkeeping).2.1) h0
 
 /-- **In every reachable state of the worker, the installed term — whatever was delivered to it,
@@ -105,5 +126,37 @@ theorem reachable_term_invariants (fuel : Nat) (me inst : Nat) (es : List (WEven
   obtain ⟨e1, e2, hi⟩ := hrun es { me := me, inst := inst } rfl rfl (C08.winv_init AllInv me inst)
   obtain ⟨t1, t2, _, t4⟩ := hi.term t ht
   exact ⟨by rw [t1]; exact e1, by rw [t2]; exact e2, t4⟩
+
+/-- **C03 without the instance-id hypothesis**: for a term in a state that satisfies the reachable
+invariants (`reachable_term_invariants`), the certificate handed to the commit callback passes
+strict `ValidateBlockConsensus` — only the consumer contract for the block (`A2`) and "the total
+weight fits 64 bits" remain as hypotheses. -/
+theorem reachable_committed_proof_validates (w : Term.W) (hall : AllInv w.n) (h v hash : Nat) (b : Block) (cs : List CMsg)
+    (hin : Out.commit b cs ∈ (checkCommitted w h v hash).outs) (hnot : Out.commit b cs ∉ w.outs)
+    (hW1 : 1 ≤ LeanHelix.W w.n.cfg.members) (hW2 : LeanHelix.W w.n.cfg.members < U64)
+    (A2 : b.hash = hash ∧ b.height = h) :
+    ∃ p, BlockProof.generate cs true = some p ∧
+      BlockProof.validate ⟨false, some b, some p, w.n.cfg.inst, w.n.cfg.members, false⟩ = .ok :=
+  C03.committed_proof_validates w h v hash b cs hall.commits hin hnot hW1 hW2
+    (fun cm hcm => (hall.clean.commits cm hcm).1) A2
+
+/-- **C11, closed for VIEW_CHANGE**: in a state that satisfies the reachable invariants, when the
+election timer of the current view fires, the VIEW_CHANGE the node builds is valid at every correct
+node with the same configuration — whatever PREPAREs, proposals and COMMITs Byzantine members and
+outsiders made it accept before.  No hypothesis about the log remains. -/
+theorem reachable_own_vote_valid (n peer : Term.Node) (hall : AllInv n) (hcfg : peer.cfg = n.cfg)
+    (hnw : ¬ n.view > wrap64 (n.view + 1)) (hne : wrap64 (n.view + 1) ≠ n.view) :
+    isViewChangeValid peer (C09.voteOnTimeout { n with view := wrap64 (n.view + 1) }).c = true := by
+  have hgt : n.view < wrap64 (n.view + 1) := by omega
+  refine C11.own_vote_is_valid_for_peers { n with view := wrap64 (n.view + 1) } peer hcfg hall.member
+    ⟨hall.prepares.auth, hall.prepares.keys⟩ hall.proposals ?_ (fun ppm hp => (hall.clean.pps ppm hp).1)
+    (fun pm hp => (hall.clean.prepares pm hp).1)
+  intro pv hpv
+  have hle : pv ≤ n.view := hall.views.prep pv hpv
+  refine ⟨by show pv < wrap64 (n.view + 1); omega, ?_⟩
+  intro pm hpm hvw hsig
+  have := hall.ownNL pm hpm hsig
+  rw [hvw] at this
+  exact this
 
 end LeanHelix.WorkerInvariants
